@@ -128,14 +128,20 @@ impl InlineTypeResolver {
 
     let discriminator = schema.discriminator.as_ref().map(|d| d.property_name.as_str());
 
-    let enum_cache_key = self
-      .context
-      .cache
-      .borrow()
-      .get_precomputed_enum_cache_key(schema)
-      .ok()
-      .flatten()
-      .or_else(|| self.value_enum_cache_key(schema));
+    // A relaxed enum (known values next to a freeform string) accepts any string,
+    // so it must never resolve to the closed enum over its known values.
+    let enum_cache_key = if schema.is_relaxed_enum_pattern() {
+      None
+    } else {
+      self
+        .context
+        .cache
+        .borrow()
+        .get_precomputed_enum_cache_key(schema)
+        .ok()
+        .flatten()
+        .or_else(|| self.value_enum_cache_key(schema))
+    };
 
     {
       let cache = self.context.cache.borrow();
